@@ -5,6 +5,9 @@ import (
 	"encoding/binary"
 	"encoding/json"
 	"fmt"
+	dv1 "github.com/chain4energy/c4e-chain/x/cfedistributor/migrations/v1"
+	"github.com/cosmos/cosmos-sdk/codec"
+	paramstypes "github.com/cosmos/cosmos-sdk/x/params/types"
 	"math/big"
 	"runtime/debug"
 	"sync"
@@ -39,6 +42,7 @@ type c16Pool struct {
 }
 
 type c16Case struct {
+	DistrV1      bool      // the distributor is still at module version 1: parameters stored in the format before v1.1.0 (percentages)
 	OwnerPools   []c16Pool // pools of the hard-coded owner, in store order (nil: owner has no record)
 	OtherPools   []c16Pool // pools of a second owner
 	ValidatorsVT bool      // vesting type "Validators" exists
@@ -115,7 +119,32 @@ func c16Distrs() []dtypes.Params {
 		c13DistParams(),
 		dcfg{{Sources: []dacc{aMfee}, Primary: aMAIN, Shares: []dshare{{aU("U2"), "0.5"}}, Burn: "0.01"}, {Sources: []dacc{aMAIN}, Primary: aVRC, Burn: "0.5"}}.Params(),
 		distChains()[0].Params(),
+		// shares and burn share below one percent
+		dcfg{{Sources: []dacc{aMAIN}, Primary: aVRC, Shares: []dshare{{aU("U2"), "0.005"}, {aMgeb, "0.19"}}, Burn: "0.0025"}}.Params(),
 	}
+}
+
+// c16DistrV1JSON renders new-format sub-distributors in the version-1 format (shares in percent), as the
+// legacy amino JSON the 1 -> 2 migration reads from the parameter store.
+func c16DistrV1JSON(p dtypes.Params) []byte {
+	var old []dv1.SubDistributor
+	hundred := sdk.NewDec(100)
+	for _, sd := range p.SubDistributors {
+		o := dv1.SubDistributor{Name: sd.Name, Destination: dv1.Destination{Account: dv1.Account{Id: sd.Destinations.PrimaryShare.Id, Type: sd.Destinations.PrimaryShare.Type},
+			BurnShare: &dv1.BurnShare{Percent: sd.Destinations.BurnShare.Mul(hundred)}}}
+		for _, src := range sd.Sources {
+			o.Sources = append(o.Sources, &dv1.Account{Id: src.Id, Type: src.Type})
+		}
+		for _, sh := range sd.Destinations.Shares {
+			o.Destination.Share = append(o.Destination.Share, &dv1.Share{Name: sh.Name, Percent: sh.Share.Mul(hundred), Account: dv1.Account{Id: sh.Destination.Id, Type: sh.Destination.Type}})
+		}
+		old = append(old, o)
+	}
+	bz, err := codec.NewLegacyAmino().MarshalJSON(old)
+	if err != nil {
+		panic(err)
+	}
+	return bz
 }
 
 var c16Owner = v120.ValidatorsVestingPoolOwner
@@ -185,6 +214,11 @@ func c16Cases(thorough bool) []c16Case {
 			}
 		}
 	}
+	// a chain whose distributor is still at module version 1 (the upgrade then also runs the 1 -> 2 migration)
+	for di := 0; di < nd; di++ {
+		c := c16Case{OwnerPools: ownerSets[8], OtherPools: otherSets[1], ValidatorsVT: true, Accounts: accKinds[5], Minter: 1, Distr: di, DistrV1: true}
+		out = append(out, c)
+	}
 	for i := range out {
 		out[i].Label = fmt.Sprintf("case#%d", i)
 	}
@@ -243,7 +277,11 @@ func c16Run(w *harness.World, cs c16Case, st *c16Stats, report func(sig, what st
 	lp := mcfg.LegacyParams()
 	app.GetSubspace(mtypes.ModuleName).SetParamSet(ctx, &lp)
 	dp := c16Distrs()[cs.Distr]
-	app.GetSubspace(dtypes.ModuleName).SetParamSet(ctx, &dp)
+	if cs.DistrV1 {
+		ctx.KVStore(app.GetKey(paramstypes.StoreKey)).Set(append([]byte(dtypes.ModuleName+"/"), dtypes.KeySubDistributors...), c16DistrV1JSON(dp))
+	} else {
+		app.GetSubspace(dtypes.ModuleName).SetParamSet(ctx, &dp)
+	}
 	vp := vtypes.Params{Denom: harness.Denom}
 	app.GetSubspace(vtypes.ModuleName).SetParamSet(ctx, &vp)
 	// new-format parameter keys do not exist before the migration
@@ -352,6 +390,9 @@ func c16Run(w *harness.World, cs c16Case, st *c16Stats, report func(sig, what st
 	// module versions before the upgrade
 	vm := app.UpgradeKeeper.GetModuleVersionMap(ctx)
 	vm[mtypes.ModuleName], vm[dtypes.ModuleName], vm[vtypes.ModuleName] = 2, 2, 2
+	if cs.DistrV1 {
+		vm[dtypes.ModuleName] = 1
+	}
 	delete(vm, "interchainaccounts")
 	app.UpgradeKeeper.SetModuleVersionMap(ctx, vm)
 	supplyBefore := app.BankKeeper.GetSupply(ctx, harness.Denom).Amount
